@@ -93,7 +93,7 @@ def arg_src(a):
     if a[0] == "u":  # element a[2] of unpacked call site a[1]
         return "v%d_%d" % (a[1], a[2])
     if a[0] == "p":
-        return a[1]
+        return a[1] + "".join("[%r]" % k for k in (a[2] if len(a) > 2 else []))  # a DAG argument, possibly indexed
     if a[0] == "c":
         return repr(a[1])
     if a[0] == "g":  # a named constant object (same object on the tawazi side and in the reference): identity-sensitive, uncopyable
